@@ -62,7 +62,13 @@ def _worker_init(backend, check_module, symbolic=True):
     if hasattr(sys, "set_int_max_str_digits"):
         sys.set_int_max_str_digits(0)
     from symtrace import env as ENV
-    _W["env"] = ENV.load(backend, symbolic=symbolic) if backend != "none" else None
+    if backend == "none":
+        # harnesses that do not trace through a backend (C19): engine only
+        from symtrace import engine
+        _W["env"] = ENV.Env(backend_name="none", symbolic=True, P=None, rec=None, mods=[], rt=None, bo=None, fx=None, br=None,
+                            ar=None, pk=None, la=None, be=None, gm=None, am=None, created=[], track=False)
+    else:
+        _W["env"] = ENV.load(backend, symbolic=symbolic)
     _W["mod"] = __import__("checks." + check_module, fromlist=["x"])
 
 
